@@ -36,9 +36,13 @@ type Rig struct {
 }
 
 // New creates a limiter server with the given shard count and store kind ("local" or "k8s").
-func New(shards int, store string) *Rig {
+func New(shards int, store string) *Rig { return NewWithSyncPeriod(shards, store, 0) }
+
+// NewWithSyncPeriod: store "k8s" with a non-zero period is the write-back mode (the limiter binary's default is 30 s);
+// the rig passes a period its run never reaches - flushes happen when the driver calls Flush on the store.
+func NewWithSyncPeriod(shards int, store string, period time.Duration) *Rig {
 	gw := gwfake.NewSimpleClientset()
-	opts := options.RateLimitOptions{ShardingCount: shards, LimitStore: store, Identity: Me,
+	opts := options.RateLimitOptions{ShardingCount: shards, LimitStore: store, Identity: Me, K8sStoreSyncPeriod: period,
 		LeaderElectionConfiguration: componentbaseconfig.LeaderElectionConfiguration{ResourceLock: "leases", ResourceNamespace: "ns", ResourceName: "limiter",
 			LeaseDuration: metav1.Duration{Duration: 15 * time.Second}, RenewDeadline: metav1.Duration{Duration: 10 * time.Second}, RetryPeriod: metav1.Duration{Duration: 2 * time.Second}}}
 	h, l, err := limiter.VerifNew(gw, k8sfake.NewSimpleClientset(), opts)
